@@ -271,6 +271,25 @@ Theorem codec_stateless :
 Proof. exact (conj codec_stateless_proof codec_hist_roundtrip_proof). Qed.
 Print Assumptions codec_stateless.
 
+(* The outputs of the codecs are VALUES: every output of a history (Marshal / MarshalAppend /
+   MarshalStable are one `marshal` each), kept and read again in the memory as it is after ALL calls,
+   is still the encoding of the value the object held at ITS call - a later call writes no cell an
+   earlier call returned; with the library contracts each decodes to its own message. *)
+Theorem codec_outputs_are_values :
+  (forall wire (marshal : pmsg -> wire) unmarshal ops cur,
+     reread_outputs wire marshal unmarshal false ops cur =
+     map (fun m => Some (unmarshal (marshal m))) (values_at_marshal ops cur)) /\
+  (forall wire marshal_bin unmarshal_bin marshal_json unmarshal_json json_unknown,
+     @bin_contract wire marshal_bin unmarshal_bin ->
+     json_contract marshal_json unmarshal_json json_unknown ->
+     forall ops cur, Forall (fun m => ~ has_unknown m) (values_at_marshal ops cur) ->
+     reread_outputs wire (strict_proto_marshal wire marshal_bin) (strict_proto_unmarshal wire unmarshal_bin) false ops cur =
+       map (fun m => Some (COk m)) (values_at_marshal ops cur) /\
+     reread_outputs wire (strict_json_marshal wire marshal_json) (strict_json_unmarshal wire unmarshal_json) false ops cur =
+       map (fun m => Some (COk m)) (values_at_marshal ops cur)).
+Proof. exact codec_outputs_are_values_proof. Qed.
+Print Assumptions codec_outputs_are_values.
+
 (* ------------------------------------------- the contracts are satisfiable *)
 (* ... by the instances the extracted model runs with; the base64 one is the Gallina transcription
    of Go's encoding/base64 as connect uses it, compared with the Go functions on every check *)
@@ -380,6 +399,20 @@ Example ex_cached_size_refuted :
   run_hist _ (strict_proto_marshal _ marshal_bin_i) (strict_proto_unmarshal _ unmarshal_bin_i) false ops o =
     [Some (COk t1); Some (COk t2)] /\
   values_at_marshal ops (o_cur o) = [t1; t2].
+Proof. vm_compute. auto. Qed.
+
+(* seeded C18-27: the result is a view of a pooled scratch buffer.  Three messages encoded, then the
+   outputs read again: the variant shows the LAST message three times, the codec as it is each its own *)
+Example ex_pooled_output_refuted :
+  let t1 := PMsg (bs "one") [] [] in
+  let t2 := PMsg (bs "two") [] [PMsg (bs "GET") [] []] in
+  let t3 := PMsg (bs "three") [] [] in
+  let ops := [HSet t1; HMarshal; HSet t2; HSize; HMarshal; HSet t3; HMarshal] in
+  reread_outputs _ (strict_json_marshal _ marshal_json_i) (strict_json_unmarshal _ unmarshal_json_i) true ops (PMsg [] [] []) =
+    [Some (COk t3); Some (COk t3); Some (COk t3)] /\
+  reread_outputs _ (strict_json_marshal _ marshal_json_i) (strict_json_unmarshal _ unmarshal_json_i) false ops (PMsg [] [] []) =
+    [Some (COk t1); Some (COk t2); Some (COk t3)] /\
+  values_at_marshal ops (PMsg [] [] []) = [t1; t2; t3].
 Proof. vm_compute. auto. Qed.
 
 (* a non-canonical encoding of a registered type (Header{name = "k", value = ["a"]} with the fields
